@@ -85,7 +85,7 @@ CHECKS = {
  'C08': dict(cat='exploration', ref='5 (C08)',
    text='generate_mul / add_mul* in all six modes and generate_square / add_square* in both modes, both endiannesses, operands as primary inputs or arbitrary gates of host circuits: all width pairs up to (5,5) (thorough (6,6)) and squares up to 8 (10) bits on ALL operand values; widths reaching the Karatsuba recursion / padding (18, 20, 21, 24x15, 40) and the squarer split (47..54) on sampled operand values. TLC evaluates the recorded netlists (thousands of gates, along a witness order it checks step by step), multiplies the operand bit sequences with Arith.BMul and compares with the returned bits; also result width, fresh gates only, pre-existing gates unchanged. The multipliers\' own steps (partial products, bit counters, shifted additions) are recorded from outside and validated as behaviours of Ledger.tla (drift); Compress.tla shows the weighted sum invariant for every full/half-adder schedule; sampled rows include mined counterexample candidates.',
    note='Trusted: TLC, Arith.tla (bit-sequence arithmetic checked against integers by ArithLemmas.tla), recorder. Exhaustive in small widths, sampled rows beyond.',
-   tech='TLA+ reference arithmetic evaluated by TLC on recorded circuits; the multipliers' own call traces validated by the TLA+ weight-ledger trace specification (Ledger.tla); compression machine model-checked under every schedule (Compress.tla)'),
+   tech='TLA+ reference arithmetic evaluated by TLC on recorded circuits; the call traces of the multipliers validated by the TLA+ weight-ledger trace specification (Ledger.tla); compression machine model-checked under every schedule (Compress.tla)'),
  'C09': dict(cat='exploration', ref='5 (C09)',
    text='Subtraction, subtract-with-compare, div-mod (incl. b = 0), integer square root, the equality gadget against every constant 0..2^(n+1), plus-one through generate_plus_one and add_plus_one (add_outputs F/T, result labels given or not), if-then-else and the pairwise gadgets are called for all small widths, both endiannesses, on fresh inputs and on arbitrary (repeated) gates of random host circuits; TLC evaluates the recorded circuit on ALL operand values and judges the integer identities, that outputs are extended iff asked, that returned labels exist and that pre-existing gates keep their function. ArithAlgoLemmas.tla checks the transcribed builders on every operand value for small widths; emitted netlists are compared gate by gate with the model (drift).',
    note='Trusted: TLC, Arith.tla / JudgeArith, recorder (endianness contract).',
